@@ -225,6 +225,12 @@ def check_C01(tier, seed):
                 m = list(s)
                 m[rng.randrange(len(m))] = ord(rng.choice(e.g.ts))
                 pipeline.add_jobs(e, [m], tag='m')
+    # a grammar in which the line feed is a TERM, parsed with skip_newline(false): every other whitespace character - a CR in
+    # front of the LF included - is skipped, the term sequence decides
+    enl = pipeline.gen_entry(gram.Grammar('nl_term_lines', ['S', 'T'], ['a', '\n'], 'S', [('S', ['S', 'T'], 0), ('S', ['T'], 0), ('T', ['a', '\n'], 0), ('T', ['a', 'a', '\n'], 0)]))
+    nlins = [sx for sx in gram.all_strings([97, 10, 13, 32, 9], 5)]
+    pipeline.add_jobs(enl, nlins, ws=1, nl=0, tag='crlf')
+    entries.append(enl)
     res, work = prun.run(entries, 'C01', design_L=L if tier == 'quick' else 5, product_depth=8 if tier == 'quick' else 11,
                          tlc_procs=4 if tier == 'quick' else 8, tlc_workers=4 if tier == 'quick' else 2)
     by_gid = {e.gid: e for e in entries}
@@ -587,10 +593,12 @@ def check_C02(tier, seed):
     # denotes at that place): token-list parsers over terms with '+' / '*' over groups, alternatives and optional tails
     import lx as lxl
     lexes = []
-    for li, ts in enumerate([[lxl.R('(a|b)+'), lxl.C(',')], [lxl.R('(ab|c)+'), lxl.C(',')], [lxl.R('(ab?)+'), lxl.C(',')], [lxl.R('[a-c](_?[a-c0-9])+'), lxl.C('=')]]):
+    # (the last one: words that may START with a byte >= 0x80 - such a byte is part of the lexeme, never a blank to be skipped)
+    for li, ts in enumerate([[lxl.R('(a|b)+'), lxl.C(',')], [lxl.R('(ab|c)+'), lxl.C(',')], [lxl.R('(ab?)+'), lxl.C(',')], [lxl.R('[a-c](_?[a-c0-9])+'), lxl.C('=')],
+                             [lxl.R('[a-c\\x80-\\xff]+'), lxl.C(',')]]):
         el = pipeline.lex_entry('c02lex%d' % li, ts)
-        al = [ord(c) for c in ('ab, ' if li == 0 else 'abc, ' if li == 1 else 'ab, ' if li == 2 else 'a_0= ')]
-        lins = [sx for sx in gram.all_strings(al, 5)][:1500 if tier == 'quick' else 4000] + [list(b'ab ba'), list(b'bb abba'), list(b'cab abcc'), list(b'abab,aab'), list(b'a_b0=c__a')]
+        al = [ord(c) for c in ('ab, ' if li == 0 else 'abc, ' if li == 1 else 'ab, ' if li == 2 else 'a_0= ')] if li < 4 else [0xe0, 0xc9, 0xa0, 0x89, 0x8d, 97, 32, 44]
+        lins = [sx for sx in gram.all_strings(al, 5 if li < 4 else 4)][:1500 if tier == 'quick' else 4000] + [list(b'ab ba'), list(b'bb abba'), list(b'cab abcc'), list(b'abab,aab'), list(b'a_b0=c__a')]
         pipeline.add_jobs(el, lins, verbose=False)
         lexes.append(el)
     entries += lexes
@@ -679,7 +687,12 @@ def check_C09(tier, seed):
                 pipeline.add_jobs(e, [s[:rng.randrange(len(s))]], tag='p', verbose=False)
     estates = pipeline.gen_entry(many_states_grammar())
     pipeline.add_jobs(estates, many_states_inputs(estates.g), verbose=False)
-    entries += lex_entries + [emany, estates]
+    # the blank and the tab as TERMS (skip_whitespace(false)): the message names the offending term - '\x20', '\x09' - as every
+    # other character outside 0x21..0x7e is named
+    eblank = pipeline.gen_entry(gram.Grammar('blank_terms', ['S'], ['a', ' ', '\t'], 'S', [('S', ['S', 'a', ' '], 0), ('S', ['\t'], 0)]))
+    pipeline.add_jobs(eblank, [sx for sx in gram.all_strings([97, 32, 9, ord('?')], 4)], verbose=False, ws=0, nl=1, tag='b')
+    pipeline.add_jobs(eblank, [sx for sx in gram.all_strings([97, 32, 9], 3)], verbose=True, ws=0, nl=0, tag='bv')
+    entries += lex_entries + [emany, estates, eblank]
     res, work = prun.run(entries, 'C09', design_L=L if tier == 'quick' else 5, design_ws=unknown[:2], do_product=True,
                          tlc_procs=4 if tier == 'quick' else 8, tlc_workers=4 if tier == 'quick' else 2)
     if res.design_errors:
@@ -733,6 +746,11 @@ def check_C10(tier, seed):
     pipeline.add_jobs(e0, [[10] * 65534 + [t0_], [10] * 65536 + [32, 32, t0_, 10, t0_], [10] * 70000 + [32, ord('?')]], verbose=False, tag='deep')
     # ... and more columns (one line of blanks)
     pipeline.add_jobs(e0, [[32] * 65534 + [t0_], [32] * 65536 + [t0_, 32, t0_], [32] * 70000 + [ord('?')]], verbose=False, tag='wide')
+    # ... positions of six digits, as a std::ostream shows them (the library's own inserter for source points): the text must be
+    # the validated message of the same call
+    big6 = [[10] * 100001 + [32, 32, 32, ord('?')], [32] * 123456 + [ord('?')]]
+    pipeline.add_jobs(e0, big6, verbose=False, tag='six')
+    pipeline.add_jobs(e0, big6, verbose=False, stream=2, tag='sixos')
     # generated lexers whose automaton looks PAST the accepted lexeme before falling back (partial longer matches),
     # multi-character and multi-line lexemes: the position must advance by the lexeme, not by what was scanned
     import lx as lxl
@@ -779,6 +797,13 @@ def check_C10(tier, seed):
     judge_traces(out, entries, res, {'position'}, domain)
     # traces abandoned at a table difference: positions in the messages and of the result's leaves against the specification's outcome
     judge_abandoned(out, entries, res, domain, 'C10ab', what=('msgs', 'positions'))
+    cap6 = {tuple(t['bytes']): ''.join(ev[1] + '\n' for ev in t['events'] if ev[0] == 'L') for t in e0.traces if t['id'].split(':')[1].startswith('six') and t['stream'] == 0}
+    for t in e0.traces:
+        if t['stream'] == 2 and tuple(t['bytes']) in cap6 and t['stream_text'] != cap6[tuple(t['bytes'])]:
+            out.violations.append({'summary': {'grammar': e0.gid, 'class': 'position: the text a std::ostream receives differs from the validated message of the same call',
+                                               'input_length': len(t['bytes']), 'ostream': t['stream_text'][:120], 'validated': cap6[tuple(t['bytes'])][:120]}, 'kind': 'parser', 'gname': e0.g.name, 'mode': e0.mode, 'gid': e0.gid,
+                                   'grammar': {'nts': e0.g.nts, 'ts': e0.g.ts, 'root': e0.g.root, 'rules': e0.g.rules, 'tprec': e0.g.tprec, 'tassoc': e0.g.tassoc},
+                                   'bytes': t['bytes'][:5000], 'ws': 1, 'nl': 1, 'verbose': 0, 'stream': 2, 'buf': 0})
     out.coverage = base_coverage(res, {
         'grammars': len(entries), 'positions_compared': res.event_kinds.get('line', 0) + res.event_kinds.get('call', 0),
         'option_combinations': 4, 'bounds': {'L_all_inputs_over_terms_and_SP_LF_TAB_CR': L},
@@ -1666,9 +1691,11 @@ def check_C04(tier, seed):
         e = pipeline.lex_entry('ls' + lid, ts)
         special = set(b'[]()*+?|{}\\^-.')
         alpha = sorted({b for t in ts for b in ([t[1]] if t[0] == 'C' else t[1]) if 32 < b < 127 and (t[0] != 'R' or b not in special)} | {ord('a'), ord('1'), ord('+'), ord('?')})[:6]
-        wsb = [32, 10, 9]
+        wsb = [32, 10, 9, 13]
         L = 4 if tier == 'quick' else 5
-        ins = []
+        # (pairs of whitespace characters: what is skipped is decided character by character - a CR in front of a LF is a
+        #  blank like any other when newlines are not skipped)
+        ins = [[alpha[0], 13, 10, alpha[0]], [13, 10], [alpha[0], 32, 13, 10, alpha[0]], [alpha[0], 13, 13, 10], [alpha[0], 9, 10, 13, alpha[0]]]
         for sx in gram.all_strings(alpha + wsb, L):
             ins.append(sx)
             if len(ins) >= (500 if tier == 'quick' else 4000):
@@ -1957,7 +1984,7 @@ def check_C07(tier, seed):
     if tier != 'quick':
         names += ['deep_unit_nullable', 'left_rec_empty', 'closure_memo', 'first_stride', 'unit_chain', 'paren_list', 'opt_tail', 'two_lists', 'expr_unary', 'dangling_else', 'first_leftrec_chain', 'nullable_cycle2', 'll_pal', 'expr_rassoc']
     # (error recovery during constant evaluation: the same verdict as at run time, and still a constant expression)
-    names += ['err_stmt'] if tier == 'quick' else ['err_stmt', 'err_suite', 'err_block']
+    names += ['err_stmt', 'err_deep_pop'] if tier == 'quick' else ['err_stmt', 'err_deep_pop', 'err_suite', 'err_block']
     grams = [cat[n] for n in names if n in cat]
     entries, cases_by = [], {}
     for g in grams:
@@ -1972,6 +1999,9 @@ def check_C07(tier, seed):
         if any(not r for (_, r, _) in g.rules):
             # nullable symbols: every short text without slack (several empty reductions stacked on few characters)
             ins += [(s, 1, 1) for s in gram.all_strings(alpha, 2 if tier == 'quick' else 3)]
+        if g.name == 'err_deep_pop':
+            # several hundred states popped in ONE recovery (a loop in the library: no nesting of calls in constant evaluation)
+            ins += [([40] * 600 + [59], 1, 1), ([40] * 600 + [120] + [41] * 300 + [59], 1, 1)]
         if g.name == 'left_rec':
             # a text of 1500 characters (fixed stacks of more than 16 KiB): constant evaluation must not depend on the SIZE of the fixed stacks a long
             # cstring_buffer brings with it (one accepted, one with a lexical error at the very end)
@@ -2062,7 +2092,10 @@ def check_C07(tier, seed):
         return lambda: subprocess.run(cmd, capture_output=True, text=True, timeout=1500)
     jobs = []
     for (e, cases, src) in tus:
-        jobs.append(('g++', e, compile_job(['g++', '-std=c++17', '-fsyntax-only', '-fconstexpr-ops-limit=2000000000', '-fconstexpr-loop-limit=100000000', '-fconstexpr-depth=4096', '-I' + inc, src])))
+        # (err_deep_pop is compiled with the compiler's DEFAULT depth of nested constexpr calls: the driver is a loop, a recovery
+        #  that pops 600 states nests no calls - a limit raised to 4096 would hide a depth that grows with the input)
+        gdepth = [] if e.g.name == 'err_deep_pop' else ['-fconstexpr-depth=4096']
+        jobs.append(('g++', e, compile_job(['g++', '-std=c++17', '-fsyntax-only', '-fconstexpr-ops-limit=2000000000', '-fconstexpr-loop-limit=100000000'] + gdepth + ['-I' + inc, src])))
         jobs.append(('clang++', e, compile_job(['clang++', '-std=c++17', '-fsyntax-only', '-fconstexpr-steps=2000000000', '-fconstexpr-depth=4096', '-fbracket-depth=4096', '-I' + inc, src])))
         jobs.append(('build', e, compile_job(['g++', '-std=c++17', '-O1', '-DVERIF_RUNTIME_ONLY', '-I' + inc, src, '-o', src[:-4]])))
     rs = vlib.run_parallel([j[2] for j in jobs])
@@ -2076,6 +2109,10 @@ def check_C07(tier, seed):
                 nct += len(cases)
                 continue
             err = r.stderr
+            if e.g.name == 'err_deep_pop' and kind == 'g++' and 'constexpr-depth' in err:
+                out.violations.append({'summary': {'grammar': e.gid, 'compiler': kind, 'class': 'constant evaluation nests calls as deep as the stack one recovery pops (the default depth of 512 nested constexpr calls is exceeded by an input that pops 600 states)',
+                                                   'compiler_says': err[:500]}, 'kind': 'ct', 'gname': e.g.name, 'source': open([t for t in tus if t[0] is e][0][2]).read()})
+                continue
             if 'limit' in err and ('constexpr' in err) and ('exceed' in err or 'maximum' in err):
                 raise Infra('constant-evaluation limit of %s hit for %s (raise the limit; not a verdict)' % (kind, e.gid))
             import re as _re
@@ -2258,7 +2295,7 @@ def check_C12(tier, seed):
     # runs through buffers of their own
     lex_entries += [pipeline.lex_entry('capwide0', [lxl.R('.'), lxl.C('x')]), pipeline.lex_entry('capwide1', [lxl.R('"[^"]*"'), lxl.R('[\\x00-\\xff]x')])]
     # ---- (c) default LR caps, (d) custom limits around the need
-    names = ['expr_strat', 'paren_list', 'closure_memo', 'lr1_not_lalr', 'nullable_prefix'] + ([] if tier == 'quick' else ['first_cycle', 'll_pal', 'two_lists', 'expr_amb', 'unit_chain'])
+    names = ['expr_strat', 'paren_list', 'closure_memo', 'lr1_not_lalr', 'nullable_prefix', 'else_in_else'] + ([] if tier == 'quick' else ['first_cycle', 'll_pal', 'two_lists', 'expr_amb', 'unit_chain'])
     base = [pipeline.gen_entry(cat[n], gid=n + '@deflim') for n in names]
     # a grammar with MORE LR(1) states than the default state cap (the cap is the number of situations; the canonical
     # collection of the right-linear grammar of (a|b)* a (a|b)^7 is exponential in the suffix): once with the default limits
@@ -2687,6 +2724,8 @@ def check_C15(tier, seed):
     nthr_traces = 0
     images = []
 
+    diags = {}
+
     def run_threads(label, binp, es, is_host):
         nonlocal nthr_traces
         recs_all = vlib.scratch('C15run')
@@ -2715,6 +2754,8 @@ def check_C15(tier, seed):
                     out.violations.append({'summary': {'class': 'the parser object was modified by parse calls', 'grammar': rec['image'], 'bytes_changed': rec['changed'], 'object_size': rec['bytes'], 'build': label}, 'kind': 'threads'})
             elif 'dump' in rec:
                 [e for e in es if e.gid == rec['dump']['g']][0].dump = rec['dump']
+            elif 'diag' in rec:
+                diags[(label, len(es), rec['g'])] = rec['diag']
             elif 'id' in rec and label.startswith('plain'):
                 [e for e in es if e.gid == rec['g']][0].traces.append(rec)
                 nthr_traces += 1
@@ -2728,6 +2769,20 @@ def check_C15(tier, seed):
             continue
         for label, binp in (('plain', plain), ('tsan', sanit)):
             run_threads(label, binp, es, True)
+        # several parser objects of ONE C++ type live in that process (one per grammar): what write_diag_str says about the last
+        # one must be what it says when that object is the only one of its type (a process of its own)
+        if len(es) > 1:
+            last = es[-1]
+            saved = (last.traces, last.dump)
+            last.traces = []
+            run_threads('plain-alone', plain, [last], True)
+            last.traces, last.dump = saved
+            a, b = diags.get(('plain', len(es), last.gid)), diags.get(('plain-alone', 1, last.gid))
+            if a is not None and b is not None and a != b:
+                import difflib
+                dl = [l for l in difflib.unified_diff(b.splitlines(), a.splitlines(), lineterm='', n=0) if l[:1] in '+-' and l[:3] not in ('+++', '---')]
+                out.violations.append({'summary': {'class': 'write_diag_str of a parser object depends on OTHER parser objects of the same type in the process', 'grammar': last.gid,
+                                                   'alone/among_others': dl[:4]}, 'kind': 'threads'})
     # ---- a parser with a CUSTOM lexical analyzer that keeps the working data of a call in its members (as hand-written
     # scanners do): calls are independent only if no lexer OBJECT is shared between them
     import gen_tu
